@@ -31,7 +31,7 @@ def gen_cases(rng, tier):
     cases += rc.gen_offset_width(rng)
     cases += rc.gen_cuts(rng, 1 if tier == "quick" else 4)
     cases += rc.gen_small_limit(rng)
-    cases += rc.gen_random(rng, 120 if tier == "quick" else 1500, 40 if tier == "quick" else 80)
+    cases += rc.gen_random(rng, 120 if tier == "quick" else 1500, 30 if tier == "quick" else 60)
     return cases
 
 
